@@ -126,7 +126,12 @@ def check(run):
         run.ob('C06-MUSTFLAG', '%s::%s::column-kind' % (det.rel, det.short), okname,
                'flag column is named for kind %r: %s' % (kind, [norm(n) for n in names]), fn=det, nontrivial=False)
         # NULLFLAG
+        seen_stores = set()
         for lab, marks, comp, s in tables.table(det.node, tables.pick_store('out_df'), consts=det.mod.consts):
+            s = getattr(s, '_store', s)
+            if id(s) in seen_stores:
+                continue
+            seen_stores.add(id(s))
             v = s.value
             ok = False
             why = norm(v)
